@@ -85,4 +85,47 @@ PROPS = {
         "explanation": "QuorumWaiter modelled as a sequential actor serving one batch at a time; theorems: forwarded only with quorum stake incl. self, at most once, exactly at the crossing step, FIFO across batches, >= f+1 honest stake among ackers (via C17); "
                        "the engine drives the real QuorumWaiter with harness-made oneshot handles in every ACK order / silent subset and compares with the model and an independent stake monitor.",
     },
+    "C03": {
+        "lean_modules": ["HotstuffModel.Properties.C03"],
+        "engines": [{"name": "cons"}],
+        "level": "proof",
+        "trusted_base": TB_COMMON + [
+            "ideal signatures and collision-free digests (DESIGN 3.4): ed25519 and SHA-512 are modelled, not verified",
+            "tokio mpsc channels are FIFO, select! picks any ready branch, a task handles one message at a time; the micro-step model over-approximates every schedule",
+        ],
+        "assumptions": [
+            "the ghost records `voted b` / `timeout t` of the model sit exactly where make_vote / local_timeout_round request a signature (tied by the lock-step engine: every wire vote/timeout of the real node is compared with the model's)",
+        ],
+        "explanation": "Invariants Inv1/Inv2 of the node model (Core+Proposer+Synchronizer+PayloadWaiter+Helper) are proved preserved by every micro-step for ARBITRARY inputs and lifted to every event list; "
+                       "C03's clauses are read off them. The cons engine runs one real Consensus node in lock-step with the model on seeded protocol runs (equivocation, replays, loop-back paths, timeouts) "
+                       "and checks the voting rules on the real node's own wire votes.",
+    },
+    "C10": {
+        "lean_modules": ["HotstuffModel.Properties.C10"],
+        "engines": [{"name": "cons"}],
+        "level": "proof",
+        "trusted_base": TB_COMMON + [
+            "ideal signatures and collision-free digests (DESIGN 3.4): ed25519 and SHA-512 are modelled, not verified",
+            "tokio mpsc channels are FIFO, select! picks any ready branch, a task handles one message at a time; the micro-step model over-approximates every schedule",
+        ],
+        "assumptions": [
+            "timers are modelled by their order only: the `timer` event may fire at any time",
+        ],
+        "explanation": "Round monotonicity and 'a round change records its certificate' are two-state facts proved for every micro-step from any state (relation Ext); the timeout/high-QC clauses come from invariants Inv1/Inv2 for arbitrary inputs. "
+                       "The cons engine checks the same on the real node's wire messages (round of successive own messages, certificate availability, QC carried by timeouts).",
+    },
+    "C04": {
+        "lean_modules": ["HotstuffModel.Properties.C04"],
+        "engines": [{"name": "verify"}, {"name": "cons"}],
+        "level": "proof",
+        "trusted_base": TB_COMMON + [
+            "ideal signatures and collision-free digests (DESIGN 3.4): ed25519 and SHA-512 are modelled, not verified",
+            "tokio mpsc channels are FIFO, select! picks any ready branch, a task handles one message at a time; the micro-step model over-approximates every schedule",
+        ],
+        "assumptions": [
+            "ed25519 is ideal: a signature verifies for exactly one (key, digest); the byte-level digest layouts are injective and domain-separated (C20) and SHA-512/256 is collision-free",
+        ],
+        "explanation": "The five verify functions are modelled statement by statement and characterised exactly (accept iff distinct staked signers, quorum weight, every signature for exactly the certificate's content); tamper=>reject and "
+                       "'a rejected message leaves the state literally unchanged' are theorems. The verify engine runs the real verify functions and the model on valid messages and ~10 mutation classes; the cons engine shows invalid messages never change the real node's outputs.",
+    },
 }
